@@ -77,11 +77,4 @@ Apply(e, s) ==
     [] e.k = "ret-close"    -> [s EXCEPT !.cl = "closed"]
     [] OTHER                -> s
 
-(* As a judge of one recorded observation sequence: <<"ok", 0>> or <<clause, index of the refused event>> *)
-RECURSIVE JudgeFrom(_, _, _, _)
-JudgeFrom(c, evs, i, s) ==
-  IF i > Len(evs) THEN <<"ok", 0>>
-  ELSE LET r == Refusal(c, evs[i], s) IN
-       IF r # "ok" THEN <<r, i>> ELSE JudgeFrom(c, evs, i + 1, Apply(evs[i], s))
-Verdict(c, evs) == JudgeFrom(c, evs, 1, ObsInitOf(c))
 =============================================================================
